@@ -31,6 +31,7 @@ const (
 	KAny                     // interface{} where provided, any where consumed
 	KFuncT                   // func(n int) int where provided, func(int) int where consumed
 	KAnon                    // struct{ V uint64 }: an unnamed struct type
+	KAlias                   // type Tn struct{...}; type An = Tn: Tn where provided, the alias An where consumed
 	numKinds
 )
 
@@ -139,9 +140,9 @@ type Program struct {
 	Bare bool `json:"bare,omitempty"`
 	// BareMix (Bare programs, 0 = off): every BareMix-th argument is a call
 	// instead of a bare identifier, and that call overwrites the argument
-	// variables that precede it in the directive with the same poison values: an
-	// argument that is not a call and is read after a later argument's call
-	// (not in source order) shows.
+	// variables of the options that precede its own option with the same poison
+	// values: an argument that is not a call and is read after the call in a
+	// later option (not in source order) shows.
 	BareMix int `json:"bare_mix,omitempty"`
 	// GoTag: a Go release tag ("go1.21", "" for none) added to the file's build
 	// constraint (//go:build cff && go1.21). In a module whose go.mod says a
